@@ -29,7 +29,7 @@ ASSUMPTIONS = [
     "raising, so a rewrite that turns an erroring odd projection into an ordinary value (or back) is visible.",
 ]
 ATHERIS_RUNS = 4000  # thorough tier only: coverage-guided supplement (vf/fuzz.py)
-BUDGET = {"quick": (8, 800), "thorough": (16, 12000)}
+BUDGET = {"quick": (8, 1300), "thorough": (16, 12000)}
 
 
 @st.composite
